@@ -124,6 +124,26 @@ def faults():
         m.pr = h.Pair(L())(a=m.s1, b=m.d)
         return m
     yield ("width/pair", w_pair)
+    # ---- a connection made and taken away again: the port is open (a missing connection like any other)
+    for target in ("instance", "array"):
+        for how in ("call", "setattr", "replace"):
+            for first in ("signal", "slice", "noconn", "portref"):
+                def b(target=target, how=how, first=first):
+                    m = base()
+                    m.keep = L()(a=m.s2, b=m.s1)
+                    i = L()(a=m.s2)
+                    m.i = 2 * i if target == "array" else i
+                    c = {"signal": lambda: m.s1, "slice": lambda: m.s4[1], "noconn": lambda: h.NoConn(), "portref": lambda: m.keep.b}[first]()
+                    if how == "call":
+                        m.i(b=c)
+                    elif how == "setattr":
+                        m.i.b = c
+                    else:
+                        m.i.b = m.s1
+                        m.i.replace("b", c)
+                    m.i.disconnect("b")
+                    return m
+                yield (f"ports/connected-then-disconnected/{target}/{how}/{first}", b)
     # ---- missing / extra connections
     for k, f in {"missing": lambda m: dict(a=m.s2), "extra": lambda m: dict(a=m.s2, b=m.s1, c=m.s1),
                  "none": lambda m: dict()}.items():
